@@ -653,6 +653,11 @@ func c01Edge(u *Unit, k int) {
 		return
 	}
 	sh := c01Shape{N: 3 + k%2, SemiSync: true, W: 1, Req: "auto_crash", Workload: k%4 < 2, ToIdx: 1}
+	if sh.N == 3 && (k/4)%2 == 1 {
+		// configured count 2 with a list of three: the master is told to wait for min(3/2, 2) = 1 acknowledgement, and the
+		// quorum follows that effective count (3 - 1 = 2), not the configured one (3 - 2 = 1)
+		sh.W = 2
+	}
 	adv := (k / 2) % (sh.N - 1)
 	for i := 1; i < sh.N; i++ {
 		sh.Hist = append(sh.Hist, "behind")
@@ -811,5 +816,5 @@ func init() {
 			}
 			return f
 		},
-		Rule: "(plus 6 async-edge units: async mode, the preferred replica with a received-only tail and a repl_mon delay inside the allowed lag, under a forced manual failover away from the master or to that replica, a planned switch to it, a switch away from the master, and - as control - an automatic failover) (plus 8 quorum-edge units: automatic failover in a 3-4 node semi-sync cluster with count 1 whose most advanced replica dies, fails or hangs at its first freeze call - all such faults, no sampling) unit = cluster shape (2-4 HA, cascade, semi-sync on/off, wait count, force_switchover, per-replica GTID history from {equal, behind, far behind, received-but-unapplied tail, gap, errant, applier stopped shortly before the request}, multi-source base, priorities, async mode with allowed lag 20 s and per-replica repl_mon delay {3,19,20,100} s when semi-sync is off) x request kind; a fault-free baseline enumerates the external call boundaries after the request, then one run per sampled (boundary x fault kind), half of the sample stratified to the freeze phase (a member other than the old master dies, fails or hangs at its first read-only / stop-IO call); non-trivial = a promotion event or a split-brain abort was observed; distinct by (n, semi-sync, request, force, fault kind, boundary class, outcome)"})
+		Rule: "(plus 6 async-edge units: async mode, the preferred replica with a received-only tail and a repl_mon delay inside the allowed lag, under a forced manual failover away from the master or to that replica, a planned switch to it, a switch away from the master, and - as control - an automatic failover) (plus 8 quorum-edge units: automatic failover in a 3-4 node semi-sync cluster with count 1 - two of the three-node ones with a configured count 2, effective 1 - whose most advanced replica dies, fails or hangs at its first freeze call - all such faults, no sampling) unit = cluster shape (2-4 HA, cascade, semi-sync on/off, wait count, force_switchover, per-replica GTID history from {equal, behind, far behind, received-but-unapplied tail, gap, errant, applier stopped shortly before the request}, multi-source base, priorities, async mode with allowed lag 20 s and per-replica repl_mon delay {3,19,20,100} s when semi-sync is off) x request kind; a fault-free baseline enumerates the external call boundaries after the request, then one run per sampled (boundary x fault kind), half of the sample stratified to the freeze phase (a member other than the old master dies, fails or hangs at its first read-only / stop-IO call); non-trivial = a promotion event or a split-brain abort was observed; distinct by (n, semi-sync, request, force, fault kind, boundary class, outcome)"})
 }
